@@ -210,9 +210,10 @@ PROPS["C17"] = {
 PROPS["C18"] = {
     "claim": "remove_insignificant_whitespace removes exactly the text nodes the definition names, for all text contents "
              "(the solver picks the characters) and xml:space layouts, and is idempotent",
-    "harnesses": [H("h_c18_strip", {"PICKS": 2, "TARGETS": 1}, {"PICKS": 3, "TARGETS": 2}, shards={"quick": shard_product(("xs0", 4), ("xs1", 4)), "thorough": shard_product(("xs0", 4), ("xs1", 4))})],
+    "harnesses": [H("h_c18_strip", {"PICKS": 2, "TARGETS": 1}, {"PICKS": 3, "TARGETS": 2}, shards={"quick": shard_product(("xs0", 4), ("xs1", 4)), "thorough": shard_product(("xs0", 4), ("xs1", 4))}),
+                  H("h_c18_adjacent")],
     "bounds": {"quick": "<a>t0<p>t1<b/>t2<!--c-->t3</p>t4</a>: t1,t2 symbolic (1 char, any XML Char), t0,t3,t4 each one of space / letter (thorough: also U+00A0), "
-                        "xml:space none/preserve/default/other on both elements, called on the document and on the element",
+                        "xml:space none/preserve/default/other on both elements, called on the document and on the element; adjacent text nodes built with consolidation off (4 texts, one symbolic)",
                "thorough": "same"},
     "outside": "text longer than one character; deeper nesting of xml:space",
     "assumptions": [],
@@ -330,14 +331,14 @@ PROPS["C19"] = {
           shards={"quick": shard_product(("nm", 16), ("nk", 3)), "thorough": shard_product(("nm", 16), ("nk", 3), ("ind", 3))}),
         H("h_c19_attrs", {"SYMA": 2, "SYMA2": 1}, {"SYMA": 3, "SYMA2": 2},
           shards={"quick": shard_product(("nk", 2), ("extra", 4), ("el", 2)), "thorough": shard_product(("nk", 2), ("extra", 4), ("el", 2), ("ind", 2))}),
-        H("h_c19_embedded", shards={"quick": shard_product(("shape", 6), ("top", 3)), "thorough": shard_product(("shape", 6), ("top", 3))}),
+        H("h_c19_embedded", shards={"quick": shard_product(("shape", 8), ("top", 3)), "thorough": shard_product(("shape", 8), ("top", 3))}),
         H("h_c19_loose", {"SYMT": 2}, {"SYMT": 3}, shards={"quick": shard_choose("what", 7), "thorough": shard_choose("what", 7)}),
         H("h_c19_pi", {"PILEN": 3}, {"PILEN": 4}, shards={"quick": shard_choose("where", 3), "thorough": shard_product(("where", 3), ("len", 4))}),
     ],
     "bounds": {"quick": "16 element names (void / phrasing / formatted / raw-text / unknown, lower, upper and mixed case) x no namespace, "
                         "XHTML default, XHTML prefixed, holding one symbolic char of text, with / without CDATA request, 3 indentation "
                         "settings, document and element as the serialised node; attribute values of 2 symbolic chars (1 + 1 with a namespaced "
-                        "attribute), boolean candidates; 6 MathML / SVG / foreign-namespace shapes x 3 serialised nodes; text under a document and 6 kinds of "
+                        "attribute), boolean candidates; 8 MathML / SVG / foreign-namespace shapes (incl. XHTML void elements inside SVG) x 3 serialised nodes; text under a document and 6 kinds of "
                         "single node with 2 symbolic chars; processing instruction data of <= 2 symbolic chars at 3 positions",
                "thorough": "text 2, attribute 3, loose text 3, PI data <= 3 symbolic chars"},
     "outside": "longer contents; other tree shapes; normalizers; names outside the 16; the matcher is silent about which namespace "
